@@ -5,7 +5,7 @@
    run() invocations / thread-exited flag observed at the end must equal the model's.  When the real run
    ended blocked in join() (a task that was neither started nor stopped), the model must have [Join]
    disabled in the state reached.  Settings values are integers here (V := Z). *)
-Require Export QV.Lib.Corr QV.C10.Model.
+Require Export QV.Lib.Corr QV.C10.Model QV.C10.ModelLoop.
 From Coq Require Import ZArith.
 
 Definition out_eqb (a b : out Z) : bool :=
@@ -13,6 +13,7 @@ Definition out_eqb (a b : out Z) : bool :=
   | ONone, ONone => true
   | OUsageError, OUsageError => true
   | OTaskRunError, OTaskRunError => true
+  | OInitError, OInitError => true
   | OBool x, OBool y => Bool.eqb x y
   | OVal x, OVal y => Z.eqb x y
   | OOpt x, OOpt y => option_eqb Z.eqb x y
@@ -60,3 +61,18 @@ Definition check_case (c : case) : bool :=
       (if blocked then match step s (Ext Join) with None => true | Some _ => false end else true)
   | None => false
   end.
+
+(* ---- QMI_LoopTask: the real run() under virtual time against ModelLoop.loop_run -------------------
+   policy, period, t0 (clock at loop_prepare), external stop time, scripted durations (all in ticks),
+   observed: (clock, next_time) at the entry of every loop_iteration, (clock, next_time) in loop_finalize *)
+Definition lcase := (policy * Z * Z * option Z * list Z * (list (Z * Z) * (Z * Z)))%type.
+
+Definition lmodel_out (c : lcase) : list (Z * Z) * lfinal :=
+  let '(pol, p, t0, ts, durs, _) := c in loop_run pol p t0 ts durs.
+
+Definition zz_eqb (a b : Z * Z) : bool := Z.eqb (fst a) (fst b) && Z.eqb (snd a) (snd b).
+
+Definition check_lcase (c : lcase) : bool :=
+  let '(_, _, _, _, _, (its, fin)) := c in
+  let '(mits, mfin) := lmodel_out c in
+  list_eqb zz_eqb mits its && zz_eqb (f_now mfin, f_next mfin) fin.
